@@ -2,6 +2,7 @@
 from __future__ import annotations
 
 import ast
+import os
 import re
 
 from sa.core import Ob
@@ -251,10 +252,10 @@ def _leaves(t):
         yield t
 
 
-def _every_vm_bounds(ctx, meth, limit):
+def _every_vm_bounds(ctx, meth, limit, call=None):
     """does EVERY implementation of vm.<meth> (the VM base class and each subclass that overrides it) refuse an operand longer than
     `limit` bytes before reading it?  A bound in the base class alone is no bound: BitcoinVM overrides these methods"""
-    key = ("vm-bounds", meth, limit)
+    key = ("vm-bounds", meth, limit, norm(call) if call is not None else None)
     if key in ctx.cache:
         return ctx.cache[key]
     impls = []
@@ -264,13 +265,32 @@ def _every_vm_bounds(ctx, meth, limit):
     ok = bool(impls)
     for m in impls:
         try:
-            w = sym.int_walk(ctx, m, {"len(self[-1])", "len(self.stack[-1])"})
+            # the arguments of the call (pop_int(max_size=4)) stand for the parameters they bind: constants as numbers, and a
+            # parameter that was given a value is not None
+            bound = {}
+            if call is not None:
+                ps = m.params()[1:]
+                for p_, a_ in list(zip(ps, call.args)) + [(k.arg, k.value) for k in call.keywords if k.arg]:
+                    v_ = df.const_int(a_)
+                    if v_ is None and isinstance(a_, (ast.Name, ast.Attribute)):
+                        try:
+                            v_ = sym.make_const_of(ctx, ctx.cache.get("vm-bounds-caller"))(a_) if ctx.cache.get("vm-bounds-caller") is not None else None
+                        except Exception:
+                            v_ = None
+                    if isinstance(v_, int):
+                        bound[p_] = v_
+            w = sym.int_walk(ctx, m, {"len(self[-1])", "len(self.stack[-1])"}, extra_const=(lambda e_: bound.get(e_.id) if isinstance(e_, ast.Name) else None) if bound else None)
             raises = [e for e in w.exits if e.kind == "raise"]
             fr = gi.f_or(*[e.cond for e in raises]) if raises else False
-            must = sym.must_set(fr, U, E) if fr is not False else E
+            assume = {"%s is None" % p_: False for p_ in bound} or None
+            must = sym.must_set(fr, U, E, assume) if fr is not False else E
+            if os.environ.get("VERIF_DEBUG"):
+                print("DBG vm-bounds", m.qualname, bound, fr, must, norm(call) if call is not None else None)
             if not iv(limit + 1, None).issubset(must):
                 ok = False
-        except Exception:
+        except Exception as ex_:
+            if os.environ.get("VERIF_DEBUG"):
+                print("DBG vm-bounds", m.qualname, type(ex_).__name__, ex_)
             ok = False
     ctx.cache[key] = ok
     return ok
@@ -299,7 +319,8 @@ def c03_3(ctx):
                 sites += 1
                 lens = sym.may_set(e.reach, U, E)
                 meth = nm.split(".")[-1]
-                if not lens.issubset(iv(None, limit)) and _every_vm_bounds(ctx, meth, limit):
+                ctx.cache["vm-bounds-caller"] = fi
+                if not lens.issubset(iv(None, limit)) and _every_vm_bounds(ctx, meth, limit, e.call):
                     ctx.ok("%s:%s:bounded-by-the-method" % (fi.name, nm), sample={"handler": fi.qualname, "read": nm, "bound_in": "every implementation of %s" % meth})
                     continue
                 # over the handler's inputs, and over every class that supplies the method: evidence of its own, however the
